@@ -214,7 +214,7 @@ def excess_key(G, a, b, t_index):
     return tuple(xa) + tuple(xb)
 
 
-def make_target(ctx, net, used, mode):
+def make_target(ctx, net, used, mode, reverse_dict=False):
     from gcmpy.names.network_names import NetworkNames as NN
     from gcmpy.tools.joint_excess_joint_degree_matrices import JointExcessJointDegreeMatrices
 
@@ -224,7 +224,7 @@ def make_target(ctx, net, used, mode):
         t = d[NN.TOPOLOGY]
         must[t].add(canon_key(excess_key(net.G, a, b, used.index(t)), T))
     m = JointExcessJointDegreeMatrices()
-    tabs = {t: LazyTarget(ctx, t, T, mode, must[t]) for t in used}
+    tabs = {t: LazyTarget(ctx, t, T, mode, must[t]) for t in (reversed(used) if reverse_dict else used)}
     m.ejks = tabs
     m.topology_names = list(used)
     return m, tabs
